@@ -97,6 +97,8 @@ struct FamilySpec {
         if (kind == "density") s += ":rep=" + std::to_string(rep) + ":w=" + std::to_string(width) + ":word=" + std::to_string(word) + ":seam=" + std::to_string(seam) + (top ? ":top=" + std::to_string(top) : "");
         else if (kind == "chunktail") s += ":rep=" + std::to_string(rep) + ":w=" + std::to_string(width) + ":word=" + std::to_string(word) + (n ? ":n=" + std::to_string(n) : "");
         else if (kind == "longrun") s += ":n=" + std::to_string(n) + ":seam=" + std::to_string(seam) + ":rep=" + std::to_string(rep) + ":w=" + std::to_string(width) + ":word=" + std::to_string(word);
+        else if (kind == "unitop") s += ":word=" + std::to_string(word);
+        else if (kind == "randtop") s += ":rep=" + std::to_string(rep) + ":word=" + std::to_string(word);
         else if (kind == "tworuns") s += ":n=" + std::to_string(n) + ":seam=" + std::to_string(seam) + ":rep=" + std::to_string(rep) + ":w=" + std::to_string(width) + ":word=" + std::to_string(word);
         else if (kind == "stretch") s += ":rep=" + std::to_string(rep) + ":n=" + std::to_string(n) + ":w=" + std::to_string(width);
         else if (kind == "capacity") s += ":rep=" + std::to_string(rep) + ":n=" + std::to_string(n) + ":word=" + std::to_string(word);
@@ -250,6 +252,39 @@ template<typename K> bool generate_family(const FamilySpec &f, size_t eps, std::
             cur = keys.back();
         }
         if (cur > hi) return false;
+    } else if (f.kind == "unitop") {
+        // 50..649 keys drawn (by a hash of `word`) uniformly from the 1000..20999 values just below the reserved one, the largest valid
+        // key included: dense irregular data with many duplicates whose closing points sit next to the reserved value.
+        if constexpr (std::is_floating_point_v<K>) return false;
+        else {
+            auto mix = [](uint64_t x) { x ^= x >> 33; x *= 0xff51afd7ed558ccdull; x ^= x >> 33; x *= 0xc4ceb9fe1a85ec53ull; x ^= x >> 33; return x; };
+            uint64_t sd = mix(uint64_t(f.word) + 0x1234567);
+            size_t n = 50 + size_t(sd % 600); W span = 1000 + W(mix(sd) % 20000);
+            if (hi - span < W(std::numeric_limits<K>::lowest())) span = hi - W(std::numeric_limits<K>::lowest());
+            for (size_t i = 0; i + 1 < n; ++i) keys.push_back(hi - W(mix(sd + 77 * (i + 1)) % uint64_t(span)));
+            keys.push_back(hi);
+            std::sort(keys.begin(), keys.end());
+            for (size_t i = 0; i < keys.size(); ++i) if (i == 0 || keys[i] != keys[i - 1]) focus.push_back(i);
+        }
+    } else if (f.kind == "randtop") {
+        // `rep` keys with pseudo-random gaps (a hash of the position and of `word`; mostly 1..31, now and then 200+, 1 in 8 a duplicate)
+        // placed so that the LAST key is the largest valid key of the type: irregular data on every level of a multi-level index
+        // whose closing points sit next to the reserved value.
+        if constexpr (std::is_floating_point_v<K>) return false;
+        else {
+            std::vector<W> gaps; W total = 0;
+            for (long i = 1; i < f.rep; ++i) {
+                uint32_t h = uint32_t((uint64_t(i) * 0x9E3779B97F4A7C15ull + uint64_t(f.word) * 0xC2B2AE3D27D4EB4Full) >> 37);
+                W g = (h & 7) == 0 ? 0 : (h % 97 == 0 ? 200 + (h >> 8) % 300 : 1 + (h >> 3) % 31);
+                gaps.push_back(g); total += g;
+            }
+            W first = hi - total;
+            if (first < W(std::numeric_limits<K>::lowest())) return false;
+            W cur = first; keys.push_back(cur);
+            for (W g : gaps) { cur += g; keys.push_back(cur); }
+            for (size_t i = 0; i < keys.size(); i += (keys.size() > 400 ? 7 : 1)) focus.push_back(i);
+            focus.push_back(keys.size() - 1);
+        }
     } else if (f.kind == "tworuns") {
         // two duplicate runs meeting just before the end of chunk `seam`: a run of x from `word` positions relative to the start of that
         // chunk up to `width` slots before its end, then width-1 single keys, then a run of z that starts on the LAST slot of the chunk
